@@ -2,6 +2,7 @@ package main
 
 import (
 	"bytes"
+	"context"
 	"encoding/json"
 	"fmt"
 	"io"
@@ -57,6 +58,9 @@ type gateRT struct {
 }
 
 func (g *gateRT) RoundTrip(r *http.Request) (*http.Response, error) {
+	if err := r.Context().Err(); err != nil {
+		return nil, err // like a real transport: a request whose context has ended is not sent
+	}
 	body, _ := io.ReadAll(r.Body)
 	var reqs []struct {
 		Query string `json:"query"`
@@ -77,6 +81,10 @@ func (g *gateRT) RoundTrip(r *http.Request) (*http.Response, error) {
 	g.waiters = append(g.waiters, ch)
 	g.mu.Unlock()
 	<-ch
+	if bad && g.wire == 7 {
+		// the service received the call; the connection broke before any byte of the answer
+		return nil, io.EOF
+	}
 	if bad {
 		body := "boom"
 		if g.wire%2 == 1 {
@@ -93,7 +101,7 @@ func (g *gateRT) RoundTrip(r *http.Request) (*http.Response, error) {
 	out := make([]map[string]interface{}, len(idxs))
 	for i, n := range idxs {
 		out[i] = map[string]interface{}{"data": map[string]interface{}{"v": n + 1000}}
-		switch g.wire {
+		switch g.wire % 4 {
 		case 1:
 			out[i]["errors"] = []interface{}{}
 		case 2:
@@ -382,8 +390,100 @@ func permutations(n int) [][]int {
 	return out
 }
 
+// plainRT answers every call at once (no gating) and honours the request context.
+type plainRT struct {
+	mu    sync.Mutex
+	calls int
+	fail  bool
+}
+
+func (p *plainRT) RoundTrip(r *http.Request) (*http.Response, error) {
+	if err := r.Context().Err(); err != nil {
+		return nil, err
+	}
+	body, _ := io.ReadAll(r.Body)
+	var reqs []struct {
+		Query string `json:"query"`
+	}
+	json.Unmarshal(body, &reqs)
+	p.mu.Lock()
+	p.calls++
+	p.mu.Unlock()
+	if p.fail {
+		return &http.Response{StatusCode: 503, Body: io.NopCloser(strings.NewReader("down")), Header: http.Header{}}, nil
+	}
+	out := make([]map[string]interface{}, len(reqs))
+	for i, q := range reqs {
+		n, _ := strconv.Atoi(strings.TrimPrefix(q.Query, "q"))
+		out[i] = map[string]interface{}{"data": map[string]interface{}{"v": n + 1000}}
+	}
+	b, _ := json.Marshal(out)
+	return &http.Response{StatusCode: 200, Body: io.NopCloser(bytes.NewReader(b)), Header: http.Header{"Content-Type": []string{"application/json"}}}, nil
+}
+
+// c11Sequence: ONE queryer serves several Query calls in a row (as a long-lived queryer does):
+// each call is judged alone — in particular a chunked call must leave nothing behind that makes
+// the next call fail. `failFirst`: the service is down during the first call only.
+func c11Sequence(ctx *Ctx, idx int, m int, sizes []int, failFirst bool) {
+	rt := &plainRT{}
+	q := queryer.NewMultiOpQueryer("http://svc/", m).WithContext(context.Background()).WithHTTPClient(&http.Client{Transport: rt})
+	cs := map[string]interface{}{"kind": "sequence on one queryer", "m": m, "sizes": sizes, "fail_first": failFirst}
+	ctx.Rep.Case(hx.Canon(cs), true)
+	ctx.Rep.Count("sequence of Query calls on one queryer")
+	for k, n := range sizes {
+		rt.fail = failFirst && k == 0
+		inputs := make([]*requests.Request, n)
+		for i := range inputs {
+			inputs[i] = &requests.Request{Query: "q" + strconv.Itoa(i)}
+		}
+		type ret struct {
+			res []map[string]interface{}
+			err error
+			pan string
+		}
+		done := make(chan ret, 1)
+		go func() {
+			var r ret
+			defer func() {
+				if p := recover(); p != nil {
+					r.pan = fmt.Sprint(p)
+				}
+				done <- r
+			}()
+			r.res, r.err = q.Query(inputs)
+		}()
+		var r ret
+		select {
+		case r = <-done:
+		case <-time.After(5 * time.Second):
+			ctx.Rep.Fail(hx.Failure{Kind: "property-fails", Detail: fmt.Sprintf("call %d of a sequence on one queryer (N=%d, m=%d) did not return (hang)", k, n, m), Case: cs, Index: idx})
+			return
+		}
+		switch {
+		case r.pan != "":
+			ctx.Rep.Fail(hx.Failure{Kind: "property-fails", Detail: fmt.Sprintf("call %d of a sequence on one queryer panicked: %s", k, r.pan), Case: cs, Index: idx})
+			return
+		case rt.fail:
+			if r.err == nil {
+				ctx.Rep.Fail(hx.Failure{Kind: "property-fails", Detail: fmt.Sprintf("call %d: every HTTP call failed but Query returned ok", k), Case: cs, Index: idx})
+				return
+			}
+		case r.err != nil:
+			ctx.Rep.Fail(hx.Failure{Kind: "property-fails", Detail: fmt.Sprintf("call %d of a sequence on one queryer (N=%d, m=%d): no HTTP call failed but Query returned error: %v", k, n, m, r.err), Case: cs, Index: idx})
+			return
+		default:
+			for i := range inputs {
+				if i >= len(r.res) || r.res[i] == nil || fmt.Sprint(r.res[i]["v"]) != strconv.Itoa(i+1000) {
+					ctx.Rep.Fail(hx.Failure{Kind: "property-fails", Detail: fmt.Sprintf("call %d of a sequence on one queryer: result %d is not the answer to request %d", k, i, i), Case: cs, Index: idx})
+					return
+				}
+			}
+		}
+	}
+}
+
 func runC11(ctx *Ctx) error {
-	ctx.Rep.Rule = "case = (N requests, max batch m, release order of the concurrent HTTP calls, failing requests, wire shape of successful answers: errors absent / [] / null / extensions) through the real MultiOpQueryer.Query " +
+	ctx.Rep.Rule = "case = (N requests, max batch m, release order of the concurrent HTTP calls, failing requests, wire shape of successful answers: errors absent / [] / null / extensions; failed calls: 5xx/4xx with text or a well-formed body, or EOF after the service received the call), plus sequences of calls on ONE queryer through the real MultiOpQueryer.Query " +
 		"over a gating RoundTripper; distinct = distinct tuple; non-trivial = chunked path (N > m)"
 	idx := 0
 	// corpus
@@ -391,6 +491,15 @@ func runC11(ctx *Ctx) error {
 		{6, 3, []int{1, 0}, []int{4}, 0}, {5, 0, nil, nil, 0}, {0, 0, nil, nil, 0}, {3, 5, nil, []int{1}, 0},
 		{1, 1, nil, nil, 1}, {7, 3, []int{2, 0, 1}, nil, 1}, {7, 3, []int{0, 1, 2}, nil, 2}, {5, 2, []int{2, 1, 0}, nil, 3}, {4, 0, nil, nil, 1}} {
 		c11Check(ctx, idx, cs)
+		idx++
+	}
+	// one queryer, several calls; and a service that is down for a call with many chunks
+	for _, sq := range []struct {
+		m     int
+		sizes []int
+		fail  bool
+	}{{3, []int{7, 2, 7}, false}, {2, []int{5, 5}, false}, {1, []int{3, 1, 4}, false}, {2, []int{12, 3}, true}, {2, []int{20}, true}, {4, []int{9, 9, 1}, true}} {
+		c11Sequence(ctx, idx, sq.m, sq.sizes, sq.fail)
 		idx++
 	}
 	maxN, maxM := 24, 8
@@ -428,7 +537,7 @@ func runC11(ctx *Ctx) error {
 		r := ctx.Rand.Fork()
 		m := r.Range(1, maxM)
 		N := r.Range(0, maxN)
-		cs := c11Case{N: N, M: m, Order: r.Perm((N + m - 1) / m), Wire: r.Intn(4)}
+		cs := c11Case{N: N, M: m, Order: r.Perm((N + m - 1) / m), Wire: r.Intn(8)}
 		if N > 0 && r.Chance(1, 2) {
 			for f := 0; f < r.Range(1, 2); f++ {
 				cs.Fail = append(cs.Fail, r.Intn(N))
